@@ -177,7 +177,8 @@ def encode_url(url_str: str) -> "URL":
             raw_user = REQUOTER(username) if username else username
             raw_password = REQUOTER(password) if password else password
             netloc = make_netloc(raw_user, raw_password, host, port)
-            cache["raw_user"] = raw_user
+            # quoting can leave nothing of a non-empty user (lone surrogates are dropped)
+            cache["raw_user"] = raw_user or None
             cache["raw_password"] = raw_password
 
     if path:
